@@ -760,7 +760,23 @@ class Interp:
             return None
         if k == "call" and n.get("ck") == "member" and is_container_type(typ(n.get("obj"))):
             m = (n.get("callee") or "").split("::")[-1]
-            if m in SUBSTR_CALLS and is_container_type(typ(n)):
+            elem = m in ("first", "last") and not [a for a in n.get("args", []) if a.get("k") != "defaultarg"]   # QList::first(): an element, not a prefix
+            if m == "split" and "QString" in typ(n.get("obj")) and "List" in typ(n):
+                # QString::split: at least one part unless empty parts are skipped; at most one more than the text has characters
+                src = self.cval(n.get("obj"), st)
+                real = [a for a in n.get("args", []) if a.get("k") != "defaultarg"]
+                keep = len(real) < 2 or const_int(real[1]) == 0
+                r = self.temp(n, "L")
+
+                def f(d):
+                    d.assign_top(r)
+                    d.add_lower(r, 1 if keep else 0)
+                    hi = lin_upper(d, src) if src is not None else INF
+                    if hi != INF:
+                        d.add_upper(r, hi + 1)
+                st.each(f)
+                return Lin.sym(r)
+            if m in SUBSTR_CALLS and is_container_type(typ(n)) and not elem:
                 return self.eval_substr(n, m, st)
         if k == "cond":
             t, f = self.cond(n.get("cond"), st)
